@@ -290,7 +290,7 @@ class EnumeratedParameterType(ParameterType):
                 *(
                     elmaker.Enumeration(
                         label=label,
-                        value=str(value.decode(self.encoding.encoding))
+                        value=str(value.decode(self.encoding._python_codec()))
                         if isinstance(self.encoding, encodings.StringDataEncoding)
                         else str(value)
                     )
@@ -337,8 +337,10 @@ class EnumeratedParameterType(ParameterType):
             }
 
         if isinstance(encoding, encodings.StringDataEncoding):
+            # Keys are compared with raw string buffers from packets, so they are encoded exactly like those:
+            # without a byte order mark and honouring the byte order of UTF-16/UTF-32
             return {
-                bytes(el.attrib['value'], encoding=encoding.encoding): el.attrib['label']
+                bytes(el.attrib['value'], encoding=encoding._python_codec()): el.attrib['label']
                 for el in enumeration_list.iterfind('*')
             }
 
